@@ -287,9 +287,9 @@ pub fn families(prop: &str, tier: Tier) -> Vec<Cfg> {
             d.cancel = true;
             rich(&mut d);
             d.pub_retain = vec![false, true];
-            d.max_ops = if q { 6 } else { 8 };
+            d.max_ops = if q { 6 } else { 7 };
             d.max_conns = 2;
-            d.max_reqs = if q { 2 } else { 3 };
+            d.max_reqs = 2;
             d.dev = if q { 1 } else { 2 };
             // up to eight exchanges under way at once (the release list full), PUBRECs and PUBCOMPs in any
             // order within a window, then resumed
@@ -416,8 +416,12 @@ pub fn families(prop: &str, tier: Tier) -> Vec<Cfg> {
             rich(&mut r);
             r.max_ops = if q { 6 } else { 7 };
             r.max_conns = 3;
-            r.max_reqs = if q { 2 } else { 3 };
+            r.max_reqs = 2;
             r.dev = if q { 1 } else { 2 };
+            if !q {
+                r.sub_counts = vec![3];
+                r.pub_shapes = vec![1, 2];
+            }
             if !q {
                 // the full menu of handshake failures with two deviations is explored on three connections;
                 // four connections with one deviation
@@ -507,11 +511,11 @@ pub fn families(prop: &str, tier: Tier) -> Vec<Cfg> {
             d.props = vec!["C06"];
             d.ops = vec![OpK::Pub1, OpK::Pub2, OpK::Poll, OpK::DropConn];
             d.io = IoMenu::benign();
-            d.broker.receive_max = if q { vec![Some(4), Some(8)] } else { vec![Some(4), Some(5), Some(7), Some(8)] };
+            d.broker.receive_max = if q { vec![Some(4), Some(8)] } else { vec![Some(4), Some(7), Some(8)] };
             d.broker.reorder_window = 1;
             d.broker.fifo = true;
             d.tx = 512;
-            d.max_ops = if q { 13 } else { 15 };
+            d.max_ops = if q { 13 } else { 14 };
             d.max_conns = 2;
             d.max_reqs = if q { 9 } else { 10 };
             d.dev = 0;
